@@ -89,11 +89,11 @@ def prelude(res, ctx, need_race=False, lean=True):
     return True
 
 
-def diff_model(res, ctx, ops, outs, label, skip=lambda op: False):
+def diff_model(res, ctx, ops, outs, label, skip=lambda op: False, orders=None):
     """compare real outputs with the model's; returns index of first disagreement or None."""
     if not ctx.model_ok:
         return None
-    mouts = run_model(core.model_ops(ops))
+    mouts = run_model(core.model_ops(ops, orders))
     for i, (op, a, b) in enumerate(zip(ops, outs, mouts)):
         if b == "?" or skip(op):
             continue
@@ -523,6 +523,466 @@ def check_C09(res, ctx):
            "Stat/Sync/batches/Merge per index type with small files: data-race reports, recovered panics, watchdog, unexpected error classes"
 
 
+RESULT_FREE = ("stat", "files", "active", "pos", "scanstat", "sumdir")
+
+
+def check_C14(res, ctx):
+    n = 10 if ctx.quick else 150
+    pairs_per = 3 if ctx.quick else 8
+    for i in range(n):
+        rng = rng_for(ctx.seed, "C14", i)
+        base_cfg = engine.rand_cfg(rng, io=0)
+        batch_free = i % 2 == 0
+        g = engine.Gen(rng, base_cfg, nkeys=rng.choice([4, 10]),
+                       weights={"reopen": 0, "merge": 2, "keys": 4, "fold": 3, "batch": 0 if batch_free else 8}, max_val=rng.choice([800, 40000]))
+        body = g.history(60 if ctx.quick else 120)[1:-1]
+        # iterators are part of the transcript too
+        body += ["it.new a - 0", "it.next a", "it.next a", "it.close a", "it.new b - 1", "it.next b", "it.close b"]
+        scrib = ["scribble on"] if i % 3 == 0 else []
+        transcripts = []
+        for j in range(pairs_per):
+            cfg = engine.rand_cfg(rng)
+            if j == 0:
+                cfg = dict(base_cfg)
+            if j == 1:
+                cfg = dict(base_cfg, io=1)           # same limits, other back-end: bytes must be identical
+            ops = scrib + [engine.open_line("d", cfg)] + body + ["close", "sumdir d", engine.open_line("d", cfg), "dump", "close"]
+            bdir = ctx.scratch.fresh()
+            try:
+                outs = run_impl(ops, bdir)
+            finally:
+                ctx.scratch.drop(bdir)
+            res.case("%d|%s" % (i, json.dumps(cfg, sort_keys=True)), True)
+            res.count("cfg:idx%d" % cfg["idx"])
+            res.count("cfg:io%d" % cfg["io"])
+            res.count("cfg:shards%d" % cfg["shards"])
+            t = [(op, o) for op, o in zip(ops, outs) if op.split()[0] not in RESULT_FREE and not op.startswith("open ")]
+            sumline = outs[ops.index("sumdir d")]
+            transcripts.append((cfg, ops, outs, t, sumline))
+            bad = [(op, o) for op, o in t if o.startswith(("panic", "died", "dead"))]
+            if bad:
+                res.violation("configuration %s: %s -> %s" % (cfg, bad[0][0], bad[0][1]), {"ops": ops})
+            d = diff_model(res, ctx, ops, outs, "C14 %d/%d" % (i, j))
+            if d is not None:
+                k, x, y = d
+                res.violation("correspondence broke under configuration %s at `%s`: code=%s model=%s" % (cfg, ops[k], x[:200], y[:200]),
+                              {"ops": ops[:k + 1], "code": x, "model": y, "correspondence": "engine line protocol"}, no_input=True)
+        c0, ops0, outs0, t0, sum0 = transcripts[0]
+        for cfg, ops, outs, t, sm in transcripts[1:]:
+            for (opa, oa), (opb, ob) in zip(t0, t):
+                if oa != ob:
+                    res.violation("same operations, different results: `%s` -> %s under %s but %s under %s" % (opa, oa[:200], c0, ob[:200], cfg),
+                                  {"ops_a": ops0, "ops_b": ops, "first_difference": opa})
+                    break
+        if len(transcripts) > 1 and sum0 != transcripts[1][4]:
+            res.violation("standard and memory-mapped I/O stored different bytes for the same operations: %s vs %s" % (sum0[:200], transcripts[1][4][:200]),
+                          {"ops_a": ops0, "ops_b": transcripts[1][1]})
+        if i < 1:
+            res.sample({"body_head": body[:15], "configs": [t[0] for t in transcripts]})
+    # shard count normalisation
+    vals = [1, 2, 3, 4, 5, 15, 16, 17, 31, 33, 511, 512, 513, 1023, 1024, 1025, 4096, 65535, 1 << 20, 1 << 31]
+    exact_check(res, ctx, "nextPowerOfTwo", ["ix.npot %d" % v for v in vals],
+                [str(min(1024, 1 << (v - 1).bit_length())) for v in vals])
+    return "one operation sequence executed under several configurations (index type x shard count x I/O type x DataFileSize x SyncStrategy): " \
+           "the transcripts of all result-bearing calls (values, errors, key order, iterator steps, recovered dump) must be identical; with equal " \
+           "limits the data-file bytes of standard and mmap I/O must be identical; every third run reuses and scribbles the caller's buffers"
+
+
+def check_C15(res, ctx):
+    n = 20 if ctx.quick else 300
+    for i in range(n):
+        rng = rng_for(ctx.seed, "C15", i)
+        cfg = engine.rand_cfg(rng, io=(1 if i % 7 == 6 else 0))
+        cfg["idx"] = 1 + i % 3
+        w = {"reopen": 1, "merge": 1, "batch": 25 if i % 2 else 6, "put": 30, "get": 15}
+        g = engine.Gen(rng, cfg, nkeys=rng.choice([3, 6]), weights=w, max_val=rng.choice([200, 3000]))
+        ops = g.history(60 if ctx.quick else 120)
+        # sprinkle checks that slices returned earlier are unchanged
+        out_ops = ["scribble on"]
+        for k, op in enumerate(ops):
+            out_ops.append(op)
+            if k % 9 == 8 and not any(x.startswith("bnew") for x in ops[max(0, k - 30):k + 1] if False):
+                out_ops.append("checkret")
+        res.count("index_type%d" % cfg["idx"])
+        engine_history_check(res, ctx, "scribble run %d" % i, out_ops)
+        if i < 1:
+            res.sample({"ops_head": out_ops[:20]})
+    res.notes.append("partial: absence of aliasing in Go's heap is established by this differential run (value-semantics model vs real engine with "
+                     "every caller buffer reused and overwritten), not by proof")
+    return "C01/C05-style histories in scribble mode: one key buffer and one value buffer are reused for every call and overwritten (0xEE/0xDD) right " \
+           "after each return; slices returned by Get / Batch.Get are kept, compared later and then overwritten (0xCC); all three index types; " \
+           "oracle: reference map + unchanged returned slices; the value-semantics model must agree"
+
+
+def check_C16(res, ctx):
+    import subprocess
+    import time as _t
+    base = ctx.scratch.fresh()
+    try:
+        # (a) racing openers on a fresh directory
+        rounds = 10 if ctx.quick else 150
+        for r in range(rounds):
+            rng = rng_for(ctx.seed, "C16", r)
+            k = rng.choice([2, 3, 6])
+            d = "race%d" % r
+            at = _t.time_ns() + 60_000_000
+            procs = [subprocess.Popen([core.XKV, "lock", "hold", base, d, str(at), str(rng.choice([5, 20, 40]))], stdout=subprocess.PIPE, text=True)
+                     for _ in range(k)]
+            outs = [p.communicate(timeout=60)[0].strip() for p in procs]
+            res.evaluations += 1
+            res.count("open_races")
+            res.distinct.add("race:%s" % sorted(o.split()[0] for o in outs))
+            held = []
+            for o in outs:
+                f = o.split()
+                if f[0] == "ok":
+                    held.append((int(f[2]), int(f[3])))       # [open returned, close started]
+                    if f[5] != "ok":
+                        res.violation("Close failed in a racing opener: %s" % o, {"cmd": "xkv lock hold", "outputs": outs})
+                elif f[0] != "err:inuse":
+                    res.violation("racing Open returned %s (expected success or directory-in-use)" % f[0], {"outputs": outs})
+            held.sort()
+            for (a1, b1), (a2, b2) in zip(held, held[1:]):
+                if a2 < b1:
+                    res.violation("two processes had the same directory open at the same time: %s" % outs, {"outputs": outs})
+            if not held:
+                res.violation("no process could open a fresh directory: %s" % outs, {"outputs": outs})
+        # (b) a rejected Open does not touch the directory (pending finished merge present)
+        prep = ["open h 4096 0 0 3 0 16"] + ["put %02x%02x p%d:900" % (97 + j % 5, 97 + j % 5, j) for j in range(14)] + ["merge"]
+        holder = subprocess.Popen([core.XKV, "run", base], stdin=subprocess.PIPE, stdout=subprocess.PIPE, text=True)
+        for op in prep:
+            holder.stdin.write(op + "\n")
+            holder.stdin.flush()
+            holder.stdout.readline()
+        h0 = subprocess.run([core.XKV, "lock", "hash", base, "h"], capture_output=True, text=True).stdout + \
+            subprocess.run([core.XKV, "lock", "hash", base, "h-merge"], capture_output=True, text=True).stdout
+        cont = run_impl(["open h 4096 0 0 3 0 16", "open h 65536 0 0 1 1 4"], base)
+        h1 = subprocess.run([core.XKV, "lock", "hash", base, "h"], capture_output=True, text=True).stdout + \
+            subprocess.run([core.XKV, "lock", "hash", base, "h-merge"], capture_output=True, text=True).stdout
+        res.evaluations += 1
+        res.count("rejected_open_with_pending_merge")
+        if cont[0] != "err:inuse" or cont[1] != "err:inuse":
+            res.violation("Open of a directory held by another process returned %s" % cont, {"holder_ops": prep, "contender": cont})
+        if h0 != h1:
+            res.violation("a rejected Open changed the directory contents (pending merge adopted under a foreign lock?)", {"holder_ops": prep})
+        holder.stdin.write("close\n")
+        holder.stdin.flush()
+        holder.stdout.readline()
+        holder.stdin.close()
+        holder.wait(timeout=30)
+        after = run_impl(["open h 4096 0 0 3 0 16", "dump", "close"], base)
+        if after[0] != "ok":
+            res.violation("directory cannot be opened after the holder closed it: %s" % after[0], {"holder_ops": prep})
+        # (c) failed Opens release the lock: same process and another process
+        stages = [
+            ("bad-options", [], "open f 0 0 0 3 0 16"),
+            ("corrupt-data", ["corrupt f 000000000.data 9 255"], "open f 65536 0 0 3 0 16"),
+            ("threshold-without-bytes", [], "open f 65536 2 0 3 0 16"),
+        ]
+        for name, damage, bad_open in stages:
+            ops = ["open f 65536 0 0 3 0 16", "put 6161 x01", "close"] + damage + [bad_open] + [d for d in damage] + ["open f 65536 0 0 3 0 16", "get 6161", "close"]
+            outs = run_impl(ops, base)
+            res.evaluations += 1
+            res.count("failed_open_stage:" + name)
+            res.distinct.add("stage:" + name + outs[3 + len(damage)])
+            j = 3 + len(damage)
+            if outs[j] == "ok":
+                res.violation("Open expected to fail (%s) succeeded" % name, {"ops": ops})
+            if outs[-3] != "ok" or outs[-2] != "v1:a505df1b":
+                res.violation("after an Open that failed (%s: %s) the same process cannot open the directory: %s" % (name, outs[j], outs[-3:]), {"ops": ops})
+            other = run_impl(["open f 65536 0 0 3 0 16", "close"], base)
+            if other[0] != "ok":
+                res.violation("after an Open that failed (%s) another process cannot open the directory: %s" % (name, other[0]), {"ops": ops})
+            run_impl(["rmdir f"], base)
+    finally:
+        ctx.scratch.drop(base)
+    # corpus
+    res.notes.append("partial: cross-process exclusion rests on flock(2), which the model abstracts as one bit per directory")
+    return "2..6 child processes opening one fresh directory at the same instant (hold intervals must not overlap, losers get directory-in-use); " \
+           "a contender against a directory held by another process with a finished merge pending (tree hash before/after); Opens failing at " \
+           "different stages followed by Opens from the same and from another process"
+
+
+def c17_oracle(ops, outs, fs_of):
+    """Stat vs recomputation by scanning with the package's own reader; file size limit"""
+    probs = []
+    last_stat = None
+    for i, (op, out) in enumerate(zip(ops, outs)):
+        if op == "stat":
+            last_stat = (i, out)
+        if op == "scanstat" and last_stat and last_stat[0] == i - 1 and out.startswith("scan "):
+            try:
+                st = dict(x.split("=") for x in last_stat[1].split()[1:])
+                keys = int(out.split("keys=")[1].split()[0])
+                live = int(out.split("live=")[1].split()[0])
+                files = [f.split(":") for f in out.split("files=")[1].split(",") if f]
+            except (ValueError, IndexError):
+                probs.append((i, "unparsable stat/scan: %s / %s" % (last_stat[1], out)))
+                continue
+            D, R = int(st["disk"]), int(st["reclaim"])
+            if int(st["keys"]) != keys:
+                probs.append((i, "Stat.KeyNum %s but the files hold %d live keys" % (st["keys"], keys)))
+            if int(st["files"]) != len(files):
+                probs.append((i, "Stat.DataFileNum %s but %d data files are open" % (st["files"], len(files))))
+            if not (0 <= R <= D):
+                probs.append((i, "ReclaimableSize %d, DiskSize %d violate 0 <= reclaimable <= disk" % (R, D)))
+            if D - R != live:
+                probs.append((i, "DiskSize - ReclaimableSize = %d but the live records occupy %d bytes" % (D - R, live)))
+            fs = fs_of(i)
+            for fid, size, recs, fins, nbytes, status in files:
+                if int(size) > fs and int(recs) - int(fins) > 1:
+                    probs.append((i, "data file %s has %s bytes (limit %d) and holds %s records" % (fid, size, fs, recs)))
+                if status != "eof":
+                    probs.append((i, "scan of data file %s ended with %s" % (fid, status)))
+    return probs
+
+
+def check_C17(res, ctx):
+    n = 24 if ctx.quick else 400
+    for i in range(n):
+        rng = rng_for(ctx.seed, "C17", i)
+        cfg = engine.rand_cfg(rng, io=(1 if i % 8 == 7 else 0), fs=rng.choice([4096, 4096, 20000, 65536]))
+        g = engine.Gen(rng, cfg, nkeys=rng.choice([3, 6]), weights={"batch": 18, "put": 30, "del": 10, "merge": 3, "reopen": 4, "get": 3, "keys": 0,
+                                                                    "fold": 0, "dump": 1, "stat": 0}, max_val=rng.choice([500, 3000, 12000]))
+        raw = g.history(50 if ctx.quick else 100)
+        ops = []
+        fs_at = []
+        cur = cfg["fs"]
+        inbatch = False
+        for op in raw:
+            f = op.split()
+            if f[0] == "open":
+                cur = int(f[2])
+            ops.append(op)
+            fs_at.append(cur)
+            if f[0] == "bnew":
+                inbatch = True
+            if f[0] == "bdrop":
+                inbatch = False
+            if f[0] in ("put", "del", "bdrop", "merge", "open") and not inbatch:
+                ops += ["stat", "scanstat"]
+                fs_at += [cur, cur]
+        base = ctx.scratch.fresh()
+        try:
+            outs = run_impl(ops, base)
+        finally:
+            ctx.scratch.drop(base)
+        orc = engine.run_oracle(ops, outs)
+        res.case("\n".join(outs), True)
+        res.count("stat_checks", ops.count("scanstat"))
+        probs = [(j, m) for j, m in orc.problems] + c17_oracle(ops, outs, lambda j: max(fs_at[max(0, j - 400):j + 1]))
+        if probs:
+            j, msg = sorted(probs)[0]
+            res.violation("accounting run %d after `%s`: %s" % (i, ops[max(0, j - 2)], msg), {"ops": ops[:j + 1], "problem": msg})
+            continue
+        d = diff_model(res, ctx, ops, outs, "C17 %d" % i)
+        if d is not None:
+            k, x, y = d
+            res.violation("correspondence broke on accounting run %d at `%s`: code=%s model=%s" % (i, ops[k], x[:200], y[:200]),
+                          {"ops": ops[:k + 1], "code": x, "model": y, "correspondence": "engine line protocol (Stat)"}, no_input=True)
+        if i < 1:
+            res.sample({"ops_head": ops[:20]})
+    # rotation threshold sweep: records sized around the remaining space
+    for i in range(6 if ctx.quick else 60):
+        rng = rng_for(ctx.seed, "C17t", i)
+        fs = rng.choice([4096, 65536])
+        ops = ["open d %d 0 0 3 0 16" % fs]
+        size = 0
+        for j in range(30):
+            remaining = fs - size
+            n = max(0, remaining - engine.est_size(2, 0) + rng.randrange(-40, 41))
+            ops += ["put 6b%02x p%d:%d" % (j % 3, j, n), "stat", "scanstat"]
+            if size + engine.est_size(2, n) > fs:
+                size = 0
+            size = engine.write_geom(size, engine.payload_len(2, n))[4]
+        ops.append("close")
+        base = ctx.scratch.fresh()
+        try:
+            outs = run_impl(ops, base)
+        finally:
+            ctx.scratch.drop(base)
+        res.case("t%d" % i + outs[-2], True)
+        res.count("threshold_sweeps")
+        probs = c17_oracle(ops, outs, lambda j: fs)
+        if probs:
+            res.violation("rotation-threshold sweep %d: %s" % (i, probs[0][1]), {"ops": ops[:probs[0][0] + 1]})
+    return "histories mixing Put, overwrites, Delete, batches (incl. overwrites inside batches), rotations, merges and restarts; after every step " \
+           "Stat is compared with a recomputation that scans all data files with the package's own reader: KeyNum, DataFileNum, 0 <= Reclaimable <= " \
+           "DiskSize, DiskSize - Reclaimable = bytes of live records; every data file is within DataFileSize or holds a single record (+ sealing " \
+           "record); record sizes swept within +-40 bytes of the rotation threshold"
+
+
+def check_C18(res, ctx):
+    n = 14 if ctx.quick else 300
+    for i in range(n):
+        rng = rng_for(ctx.seed, "C18", i)
+        io = 1 if i % 5 == 4 else 0
+        fs = rng.choice([4096, 20000, 65536])
+        cfg = engine.rand_cfg(rng, io=io, fs=fs)
+        # keys with high bytes / varint-like bytes / long keys
+        g = engine.Gen(rng, cfg, nkeys=rng.choice([5, 12]), weights={"merge": 0, "reopen": 0, "batch": 10, "keys": 0, "fold": 0, "dump": 0, "stat": 0},
+                       max_val=rng.choice([300, 3000]))
+        g.keys = sorted(set(g.keys + [bytes([0x80, 0x01]), bytes([0xff] * 9 + [0x01]), b"\x00", bytes(range(200, 255)) * 20]))
+        ops = g.history(50)[:-3]
+        nfiles_before = None
+        ops += ["merge", "dump", "files d-merge", "close"]
+        base = ctx.scratch.fresh()
+        try:
+            outs = run_impl(ops, base)
+            orders1 = dict(core.LAST_MERGE_ORDERS)
+            if outs[-4] != "ok":
+                res.count("merge_refused")
+                continue
+            listing = outs[-2]
+            mfiles = [x.split(":")[0] for x in listing[6:].split(",") if x.endswith and ".data" in x]
+            # decode the hint with the package's own reader, scan the rewritten files, read every hinted position
+            ops2 = ["files d-merge", "df.open d-merge 0 0 hint", "df.scanhint", "df.close"]
+            for mf in mfiles:
+                ops2 += ["df.open d-merge %d 0" % int(mf[:9]), "df.scan", "df.close"]
+            outs2 = run_impl(ops2, base)
+            hint = outs2[2].split()[1:-1]
+            hint_end = outs2[2].split()[-1]
+            recs = []
+            k = 4
+            for mf in mfiles:
+                sc = outs2[k + 1].split()[1:]
+                recs += [x for x in sc[:-1]]
+                if sc[-1] != "eof":
+                    res.violation("scan of rewritten file %s ended with %s" % (mf, sc[-1]), {"ops": ops + ops2})
+                k += 3
+            res.case("\n".join(outs2), len(hint) >= 2)
+            res.count("hint_entries", len(hint))
+            res.count("merged_files", len(mfiles))
+            res.count("io%d" % io)
+            bad = None
+            if hint_end != "eof":
+                bad = "hint file scan ended with %s" % hint_end
+            hk = [h.split("@")[0] for h in hint]
+            rk = [r.split("/")[1] for r in recs]
+            if not bad and sorted(hk) != sorted(rk):
+                bad = "hinted keys %s differ from the keys stored in the merged files %s" % (hk[:6], rk[:6])
+            if not bad and len(set(hk)) != len(hk):
+                bad = "a key is hinted twice"
+            if not bad:
+                pos_of = {r.split("/")[1]: r.split("@")[1] for r in recs}
+                for h in hint:
+                    key, pos = h.split("@")
+                    if pos_of.get(key) != pos:
+                        bad = "hint entry for key %s names position %s but the record is at %s" % (key, pos, pos_of.get(key))
+                        break
+                for r in recs:
+                    if r.split("/")[0] != "0" or r.split("/")[3].split("@")[0] != "0":
+                        bad = "merged file holds a record that is not a plain normal record: %s" % r[:80]
+                        break
+            if bad:
+                res.violation("merge %d: %s" % (i, bad), {"ops": ops + ops2})
+                continue
+            # hint-path open vs scan-path open of the same files
+            keys_hex = sorted(set(hk))
+            probe = ["pos " + kx for kx in keys_hex[:40] if kx != "-"]
+            ops3 = [engine.open_line("d", cfg)] + ["dump", "stat"] + probe + ["close", engine.open_line("d", cfg), "dump", "stat"] + probe + ["close"]
+            outs3 = run_impl(ops3, base)
+            h = len(probe) + 3
+            first, second = outs3[1:h], outs3[h + 2:2 * h + 1]
+            if outs3[0] != "ok" or outs3[h + 1] != "ok":
+                res.violation("merge %d: open after merge failed: %s / %s" % (i, outs3[0], outs3[h + 1]), {"ops": ops + ops2 + ops3})
+                continue
+            if first[0] != second[0] or first[2:] != second[2:] or first[1].split()[1] != second[1].split()[1]:
+                diff = [(a, b) for a, b in zip(first, second) if a != b][:2]
+                res.violation("merge %d: opening through the hint and opening by scanning the same files give different indexes: %s" % (i, diff),
+                              {"ops": ops + ops2 + ops3})
+                continue
+            if first[0] != outs[-3]:
+                res.violation("merge %d: mapping after the adopting restart differs from the mapping before: %s vs %s" % (i, first[0][:200], outs[-3][:200]),
+                              {"ops": ops + ops3})
+            allops = ops + ops2 + ops3
+            allouts = outs + outs2 + outs3
+            d = diff_model(res, ctx, allops, allouts, "C18 %d" % i, orders=orders1)
+            if d is not None:
+                k, x, y = d
+                res.violation("correspondence broke on merge %d at `%s`: code=%s model=%s" % (i, allops[k], x[:200], y[:200]),
+                              {"ops": allops[:k + 1], "code": x, "model": y, "correspondence": "hint / merged files"}, no_input=True)
+            if i < 1:
+                res.sample({"hint_entries": hint[:5], "merged_records": recs[:5]})
+        finally:
+            ctx.scratch.drop(base)
+    return "after each successful Merge: the hint file decoded with the package's own reader vs the records scanned from the rewritten files (same " \
+           "keys, each once, positions and sizes equal, only plain normal records), then the adopting (hint-path) restart vs the next (scan-path) " \
+           "restart: same dump, KeyNum and index positions; keys with bytes >= 0x80, varint-like bytes and multi-kilobyte keys; both I/O types"
+
+
+def check_C19(res, ctx):
+    from . import dtcheck
+    n = 30 if ctx.quick else 800
+    for i in range(n):
+        rng = rng_for(ctx.seed, "C19", i)
+        ops = dtcheck.sequence(rng, 60 if ctx.quick else 120)
+        exp = dtcheck.expected(ops)
+        for op in ops:
+            res.count("cmd:" + op.split()[0])
+        exact_check(res, ctx, "command sequence %d" % i, ops, exp)
+        if i < 1:
+            res.sample({"ops_head": ops[:20]})
+    return "command sequences over 4-8 equal-length keys mixing strings with TTL classes none/live/expired, hashes, sets, lists and sorted sets, " \
+           "deletions, re-creation with another type, empty keys, restarts under other index / I/O types; every reply is compared with an in-memory " \
+           "reference of the abstract types and with the Lean model"
+
+
+def check_C20(res, ctx):
+    n = 14 if ctx.quick else 250
+    for i in range(n):
+        rng = rng_for(ctx.seed, "C20", i)
+        io = i % 2
+        cfg = engine.rand_cfg(rng, io=io, fs=rng.choice([4096, 20000, 65536]))
+        g = engine.Gen(rng, cfg, nkeys=6, weights={"reopen": 2 if io == 0 else 0, "merge": 3, "batch": 8, "keys": 0, "fold": 0}, max_val=rng.choice([400, 5000, 20000]))
+        body = g.history(30 if ctx.quick else 60)[:-3]
+        # restarts inside keep the I/O type
+        body = [(" ".join(o.split()[:6] + [str(io)] + o.split()[7:]) if o.startswith("open ") else o) for o in body]
+        ops = list(body)
+        seed = 5000
+        backups = []
+        for b in range(2):
+            ops.append("backup b%d" % b)
+            backups.append("b%d" % b)
+            # keep writing after the backup: small and > 1 page
+            for sz in (1, rng.choice([100, 4000]), rng.choice([5000, 20000, 100000])):
+                seed += 1
+                ops.append("put %s p%d:%d" % (rng.choice(g.keys).hex(), seed, sz))
+            ops.append("get %s" % rng.choice(g.keys).hex())
+            ops.append("dump")
+        ops += ["close", engine.open_line("d", cfg), "dump", "close"]
+        for bname in backups:
+            rcfg = engine.rand_cfg(rng, io=rng.choice([0, io]))
+            ops += ["haslock " + bname, engine.open_line(bname, rcfg), "dump", "put 7a7a x01", "dump", "close", engine.open_line(bname, rcfg), "dump", "close"]
+        ops += [engine.open_line("d", cfg), "dump", "close"]
+        base = ctx.scratch.fresh()
+        try:
+            outs = run_impl(ops, base, timeout=300)
+        finally:
+            ctx.scratch.drop(base)
+        orc = engine.run_oracle(ops, outs)
+        res.case("\n".join(outs[-30:]), True)
+        res.count("io%d" % io)
+        res.count("backups", 2)
+        if orc.problems:
+            j, msg = orc.problems[0]
+            res.violation("backup run %d (io=%d): %s" % (i, io, msg), {"ops": ops[:j + 1], "problem": msg})
+            continue
+        lk = [o for op, o in zip(ops, outs) if op.startswith("haslock")]
+        if any(x != "lock absent" for x in lk):
+            res.violation("backup run %d: the copy carries the source's lock file" % i, {"ops": ops})
+        d = diff_model(res, ctx, ops, outs, "C20 %d" % i)
+        if d is not None:
+            k, x, y = d
+            res.violation("correspondence broke on backup run %d at `%s`: code=%s model=%s" % (i, ops[k], x[:200], y[:200]),
+                          {"ops": ops[:k + 1], "code": x, "model": y, "correspondence": "engine line protocol"}, no_input=True)
+        if i < 1:
+            res.sample({"ops_tail": ops[-30:]})
+    return "histories (rotated files, batches, merges, adopted merges) with two backups taken during continued writing, followed by writes of 1 byte, " \
+           "up to a page and several pages; the copies are opened under other configurations, written to and restarted; the source is restarted; " \
+           "all dumps against per-directory reference maps; both I/O types in alternation; the copy must not contain the lock file"
+
+
 CHECKS = {
     "C01": check_C01,
     "C02": check_C02,
@@ -537,10 +997,60 @@ CHECKS = {
     "C07": check_C07,
     "C08": check_C08,
     "C09": check_C09,
+    "C14": check_C14,
+    "C15": check_C15,
+    "C16": check_C16,
+    "C17": check_C17,
+    "C18": check_C18,
+    "C19": check_C19,
+    "C20": check_C20,
 }
 
 ASSUME = {
 }
+
+
+def run_corpus(res, ctx):
+    """minimised past failures (one per repaired defect) always run first"""
+    d = os.path.join(core.VERIF, "corpus", ctx.pid)
+    if not os.path.isdir(d):
+        return
+    for fn in sorted(os.listdir(d)):
+        if not fn.endswith(".json"):
+            continue
+        c = json.load(open(os.path.join(d, fn)))
+        ops = c["ops"]
+        base = ctx.scratch.fresh()
+        try:
+            outs = run_impl(ops, base)
+        finally:
+            ctx.scratch.drop(base)
+        res.evaluations += 1
+        res.count("corpus_cases")
+        res.distinct.add("corpus:" + fn)
+        problems = []
+        kind = c.get("oracle", "ref")
+        if "ref" in kind or kind == "c17":
+            problems += [m for _, m in engine.run_oracle(ops, outs).problems]
+        if "exact" in kind:
+            problems += ["`%s` -> %s, expected %s" % (op, o, e) for op, o, e in zip(ops, outs, c.get("expect", [])) if e is not None and o != e]
+        if kind == "c17":
+            fs = int(ops[0].split()[2]) if ops[0].startswith("open ") else 1 << 62
+            problems += [m for _, m in c17_oracle(ops, outs, lambda j: fs)]
+            for op, o in zip(ops, outs):
+                if op.startswith("files ") and o.startswith("files "):
+                    for it in [x for x in o[6:].split(",") if x.endswith and ".data:" in x]:
+                        if int(it.rsplit(":", 1)[1]) > fs:
+                            # allowed only for a single oversized record; the corpus cases have none
+                            problems.append("data file %s exceeds DataFileSize %d" % (it, fs))
+        if problems:
+            res.violation("corpus case %s (%s): %s" % (fn, c.get("about", "")[:120], problems[0]), {"ops": ops, "corpus": fn})
+            continue
+        dm = diff_model(res, ctx, ops, outs, fn)
+        if dm is not None:
+            k, x, y = dm
+            res.violation("correspondence broke on corpus case %s at `%s`: code=%s model=%s" % (fn, ops[k], x[:200], y[:200]),
+                          {"ops": ops[:k + 1], "code": x, "model": y, "correspondence": "engine line protocol"}, no_input=True)
 
 
 def main(argv):
@@ -561,6 +1071,7 @@ def main(argv):
         need_race = pid in ("C09",)
         rule = ""
         if prelude(res, ctx, need_race=need_race):
+            run_corpus(res, ctx)
             rule = fn(res, ctx) or ""
         res.assumptions = ASSUME.get(pid, [])
         return res.finish(level="proof", rule=rule)
